@@ -60,7 +60,7 @@ theorem length_takeWhile_le' {α : Type} (p : α → Bool) : ∀ l : List α, (l
     · simp only [List.length_cons]; have := length_takeWhile_le' p as; omega
     · simp
 
-theorem emptyRows_le (d : MD) : d.emptyRows ≤ 64 := by
+theorem src_emptyRows_le (d : MD) : d.emptyRows ≤ 64 := by
   unfold MD.emptyRows
   have h1 := length_takeWhile_le' (fun row : List (Option Color) => row.all Option.isNone) d.rows.reverse
   have h2 : d.rows.reverse.length = 64 := by rw [List.length_reverse]; exact chunks64_length 64 _
@@ -80,7 +80,7 @@ def cellChar (C : CT) : Option Color → Char
   | none => ' '
   | some col => colorToChar C col
 
-theorem debugRows_eq (C : CT) (d : MD) :
+theorem src_debugRows_eq (C : CT) (d : MD) :
     d.debugRows C = (d.rows.take (64 - d.emptyRows)).map (fun row => row.map (cellChar C)) := by
   unfold MD.debugRows
   first
@@ -132,7 +132,7 @@ theorem Debug_fmt_src_eq_model (C : CT) (d : MD) (f : Formatter) (hv : CellsVali
   unfold Debug_fmt
   simp only [bind_def, pure_def, empty_rows_src, array_chunks_src]
   have hsub : usize_sub MockSrc.SIZE d.emptyRows = .ok (64 - d.emptyRows) := by
-    have := emptyRows_le d
+    have := src_emptyRows_le d
     simp only [usize_sub, SIZE_src_eq_model, Mock.SIZE, this, ↓reduceIte]
   rw [hsub, bind_ok]
   have hvalid : ∀ row ∈ List.take (64 - d.emptyRows) d.rows, ∀ c ∈ row, ∀ col, c = some col → ValidColor C col := by
@@ -153,9 +153,265 @@ theorem Debug_fmt_src_eq_model (C : CT) (d : MD) (f : Formatter) (hv : CellsVali
         rw [bind_assoc]
         congr 1
         try (funext x; rw [bind_ok]))]
-  simp only [iter_take, hok, bind_ok, bind_ok_right, renderDebug, debugRows_eq, usize_gt]
+  simp only [iter_take, hok, bind_ok, bind_ok_right, renderDebug, src_debugRows_eq, usize_gt]
   by_cases he : d.emptyRows > 0
   · simp only [he, decide_true, ↓reduceIte, toOpt]
   · simp only [he, decide_false, Bool.false_eq_true, ↓reduceIte, toOpt]
+
+/-! ### `from_pattern` -/
+
+/-- the result of `from_pattern` with the kind of panic forgotten. -/
+def patOpt : PatRes → Option MD
+  | .ok d => some d
+  | _ => none
+
+/-- padding with `repeat(None)` on fuel, cut to `n`: the fuel does not matter once it is at least `n`. -/
+theorem take_pad_fuel (n fuel : Nat) (hf : n ≤ fuel) (cs : List (Option Color)) :
+    List.take n (cs ++ List.replicate fuel none) = List.take n (cs ++ List.replicate n none) := by
+  rw [List.take_append, List.take_append, List.take_replicate, List.take_replicate]
+  congr 2
+  omega
+
+/-- the conversion closure of `from_pattern`. -/
+def convSrc (C : CT) (c : Char) : Panics (Option Color) :=
+  match c with
+  | ' ' => MutRes.ok none
+  | _ => MutRes.bind (ColorMapping_char_to_color C c) fun v => MutRes.ok (some v)
+
+theorem convSrc_eq (C : CT) (c : Char) : toOpt (convSrc C c) = convChar C c := by
+  unfold convSrc convChar
+  split
+  · rfl
+  · rename_i h
+    have hne : ¬ c = ' ' := fun e => h e
+    simp only [hne, ↓reduceIte]
+    rw [← ColorMapping_char_to_color_src_eq_model]
+    cases ColorMapping_char_to_color C c <;> rfl
+
+theorem mapP_convRow (C : CT) : ∀ row : List Char, toOpt (mapP (convSrc C) row) = convRow C row
+  | [] => rfl
+  | c :: rest => by
+    have h1 := convSrc_eq C c
+    have h2 := mapP_convRow C rest
+    simp only [mapP, convRow]
+    rw [← h1, ← h2]
+    cases convSrc C c with
+    | panic m s => rw [bind_panic]; rfl
+    | ok v =>
+      rw [bind_ok]
+      cases mapP (convSrc C) rest with
+      | panic m s => rw [bind_panic]; rfl
+      | ok vs => rw [bind_ok]; rfl
+
+/-- the row closure of `from_pattern`. -/
+def rowSrc (C : CT) (fuel : Nat) (row : List Char) : Panics (List (Option Color)) :=
+  (mapP (convSrc C) row).bind fun cs => MutRes.ok (List.take 64 (cs ++ List.replicate fuel none))
+
+theorem mapP_rows (C : CT) (fuel : Nat) (hf : 64 ≤ fuel) : ∀ pat : List (List Char),
+    toOpt (mapP (rowSrc C fuel) pat) = (convRows C pat).map (fun rows => rows.map padRow)
+  | [] => rfl
+  | r :: rest => by
+    have h1 := mapP_convRow C r
+    have h2 := mapP_rows C fuel hf rest
+    simp only [mapP, convRows, rowSrc]
+    rw [← h1]
+    cases mapP (convSrc C) r with
+    | panic m s => simp only [bind_panic]; rfl
+    | ok cs =>
+      simp only [bind_ok]
+      cases hm : mapP (rowSrc C fuel) rest with
+      | panic m s =>
+        rw [hm] at h2
+        simp only [bind_panic, toOpt]
+        cases hc : convRows C rest with
+        | none => rfl
+        | some x => rw [hc] at h2; cases h2
+      | ok vs =>
+        rw [hm] at h2
+        simp only [bind_ok, toOpt]
+        cases hc : convRows C rest with
+        | none => rw [hc] at h2; cases h2
+        | some x =>
+          rw [hc] at h2
+          simp only [toOpt, Option.map_some, Option.some.injEq] at h2
+          subst h2
+          simp only [Option.map_some, List.map_cons, padRow, take_pad_fuel 64 fuel hf]
+
+/-- the body of the copy loop of `from_pattern`. -/
+def storeSrc (x : Nat × Option Color) (s : MD) : Panics MD :=
+  (array_set (MockDisplay_pixels s) x.1 x.2).bind fun v => MutRes.ok (MockDisplay_with_pixels s v)
+
+theorem store_loop : ∀ (L : List (Option Color)) (k : Nat) (d : MD), k + L.length = 4096 →
+    ∃ d', loopM storeSrc ((List.range' k L.length).zip L) d = .ok d' ∧
+      d'.pixels.toList = d.pixels.toList.take k ++ L ∧ d'.allowOverdraw = d.allowOverdraw ∧ d'.allowOob = d.allowOob
+  | [], k, d, h => by
+    refine ⟨d, rfl, ?_, rfl, rfl⟩
+    rw [List.append_nil, List.take_of_length_le (by simp at h; simp; omega)]
+  | a :: rest, k, d, h => by
+    have hk : k < 4096 := by simp at h; omega
+    obtain ⟨d', h1, h2, h3, h4⟩ := store_loop rest (k + 1) { d with pixels := d.pixels.set k a hk } (by simp at h ⊢; omega)
+    refine ⟨d', ?_, ?_, h3, h4⟩
+    · rw [List.length_cons, List.range'_succ, List.zip_cons_cons]
+      simp only [loopM, storeSrc, array_set, MockDisplay_pixels, hk, ↓reduceDIte, bind_ok, MockDisplay_with_pixels]
+      exact h1
+    · rw [h2]
+      simp only [Vector.toList_set]
+      rw [List.take_succ_eq_append_getElem (by simp; omega), List.take_set_of_le (Nat.le_refl k), List.getElem_set_self,
+        List.append_assoc]
+      rfl
+
+/-- the loop over the rows with the `assert_eq!` of the row width. -/
+def rowAssertSrc (W : Nat) (x : Nat × List Char) (u : PUnit) : Panics PUnit :=
+  (rs_assert (rs_eq (str_len x.snd) W)
+    "Row #{} is {} characters wide (must be {} characters to match previous rows)").bind fun _ => MutRes.ok PUnit.unit
+
+theorem row_assert_loop (W : Nat) : ∀ (l : List (Nat × List Char)),
+    toOpt (loopM (rowAssertSrc W) l PUnit.unit) = if (l.map Prod.snd).all (fun r => rowLen r == W) then some PUnit.unit else none
+  | [] => rfl
+  | x :: rest => by
+    have ih := row_assert_loop W rest
+    simp only [loopM, rowAssertSrc, List.map_cons, List.all_cons, rs_assert, rs_eq, str_len, rowLen] at ih ⊢
+    by_cases h : ((List.map Char.utf8Size x.snd).sum == W) = true
+    · simp only [h, ↓reduceIte, bind_ok, Bool.true_and]
+      exact ih
+    · simp only [h, Bool.false_eq_true, ↓reduceIte, bind_panic, toOpt, Bool.false_and]
+
+/-- the hand model's `fromPattern` with the width of the first row given. -/
+def fromPatternW (C : CT) (pat : List (List Char)) (W : Nat) : PatRes :=
+  if ¬ W ≤ 64 then .panicWidth
+  else if ¬ pat.length ≤ 64 then .panicHeight
+  else if ¬ pat.all (fun r => rowLen r == W) then .panicRow
+  else match convRows C pat with
+    | none => .panicChar
+    | some rows => .ok ⟨cellsOfPattern rows, false, false⟩
+
+theorem width_src (C : CT) (pat : List (List Char)) :
+    ∃ W, option_map_or (slice_first pat) 0 (fun row => str_len row) = W ∧ fromPattern C pat = fromPatternW C pat W := by
+  cases pat with
+  | nil => exact ⟨0, rfl, rfl⟩
+  | cons r rest => exact ⟨rowLen r, rfl, rfl⟩
+
+theorem flat_map_rw (C : CT) (fuel : Nat) (pat : List (List Char)) (g : List Char → Panics (List (Option Color)))
+    (h : ∀ row, g row = rowSrc C fuel row) :
+    iter_flat_map_p (slice_iter pat) g = (mapP (rowSrc C fuel) pat).bind (fun ls => MutRes.ok ls.flatten) := by
+  have : g = rowSrc C fuel := funext h
+  subst this; rfl
+
+theorem toOpt_none {σ α : Type} {r : MutRes σ α} (h : toOpt r = none) : ∃ m s, r = .panic m s := by
+  cases r with
+  | ok v => cases h
+  | panic m s => exact ⟨m, s, rfl⟩
+
+/-- `from_pattern`: panics on exactly the patterns the model rejects (width in bytes of the first row, height, ragged
+rows, a character the type does not accept), and otherwise builds the model's display (`fuel` is what `iter::repeat` runs
+on: any value from 4096 on). -/
+theorem MockDisplay_from_pattern_src_eq_model (C : CT) (fuel : Nat) (pat : List (List Char)) (hf : 4096 ≤ fuel) :
+    toOpt (MockDisplay_from_pattern C fuel pat) = patOpt (fromPattern C pat) := by
+  unfold MockDisplay_from_pattern
+  simp only [bind_def, pure_def, MockDisplay_new_src_eq_model, bind_ok]
+  obtain ⟨W, hW1, hW2⟩ := width_src C pat
+  rw [hW1, hW2]
+  unfold fromPatternW
+  by_cases h1n : ¬ W ≤ 64
+  · have h1 := h1n
+    simp only [rs_assert, usize_le, SIZE_src_eq_model, Mock.SIZE, h1, decide_false, Bool.false_eq_true, ↓reduceIte, bind_panic,
+      toOpt, not_false_eq_true, patOpt]
+  have h1 : W ≤ 64 := by omega
+  by_cases h2n : ¬ pat.length ≤ 64
+  · have h2 := h2n
+    simp only [rs_assert, usize_le, SIZE_src_eq_model, Mock.SIZE, h1, h2, slice_len, decide_true, decide_false,
+      Bool.false_eq_true, ↓reduceIte, bind_ok, bind_panic, toOpt, not_false_eq_true, not_true_eq_false, patOpt]
+  have h2 : pat.length ≤ 64 := by omega
+  simp only [rs_assert, usize_le, SIZE_src_eq_model, Mock.SIZE, h1, h2, slice_len, decide_true, ↓reduceIte, bind_ok,
+    not_true_eq_false]
+  -- the rows
+  rw [forIn_yield' _ (rowAssertSrc W) (by
+    intro x u
+    unfold rowAssertSrc
+    rw [bind_assoc]; congr 1)]
+  have hrows := row_assert_loop W (iter_enumerate (slice_iter pat))
+  have hsnd : (iter_enumerate (slice_iter pat)).map Prod.snd = pat := by
+    simp only [iter_enumerate, slice_iter]
+    exact List.map_snd_zip (by simp)
+  rw [hsnd] at hrows
+  by_cases h3n : ¬ pat.all (fun r => rowLen r == W) = true
+  · have h3 : pat.all (fun r => rowLen r == W) = false := by simpa using h3n
+    simp only [h3, Bool.false_eq_true, ↓reduceIte] at hrows
+    obtain ⟨m, s, hp⟩ := toOpt_none hrows
+    simp only [hp, bind_panic, toOpt, h3, Bool.false_eq_true, not_false_eq_true, ↓reduceIte, patOpt]
+  have h3 : pat.all (fun r => rowLen r == W) = true := by
+    cases hx : pat.all (fun r => rowLen r == W) with
+    | true => rfl
+    | false => exact absurd (by rw [hx]; exact Bool.false_ne_true) h3n
+  simp only [h3, ↓reduceIte] at hrows
+  obtain ⟨_, hok⟩ := toOpt_eq_some hrows
+  simp only [hok, bind_ok, h3, not_true_eq_false, ↓reduceIte]
+  -- the conversion
+  rw [flat_map_rw C fuel pat _ (by intro row; rfl)]
+  have hconv := mapP_rows C fuel (by omega) pat
+  cases hm : mapP (rowSrc C fuel) pat with
+  | panic m s =>
+    rw [hm] at hconv
+    cases hc : convRows C pat with
+    | none => simp only [bind_panic, toOpt, patOpt]
+    | some rows => rw [hc] at hconv; cases hconv
+  | ok ls =>
+    rw [hm] at hconv
+    cases hc : convRows C pat with
+    | none => rw [hc] at hconv; cases hconv
+    | some rows =>
+      rw [hc] at hconv
+      simp only [toOpt, Option.map_some, Option.some.injEq] at hconv
+      subst hconv
+      have hmul : usize_mul 64 64 = .ok 4096 := by simp [usize_mul, U64]
+      simp only [bind_ok, iter_take, iter_chain, iter_repeat, patOpt, hmul]
+      have hL : List.take 4096 ((rows.map padRow).flatten ++ List.replicate fuel none) = patternColors rows := by
+        unfold patternColors
+        rw [take_pad_fuel 4096 fuel hf, List.flatMap_def]
+      rw [hL]
+      rw [forIn_yield' _ storeSrc (by
+        intro x s
+        unfold storeSrc
+        rw [bind_assoc]; congr 1)]
+      have hlen := patternColors_length rows
+      obtain ⟨d', hd1, hd2, hd3, hd4⟩ := store_loop (patternColors rows) 0 MD.new (by rw [hlen])
+      have henum : iter_enumerate (patternColors rows)
+          = (List.range' 0 (patternColors rows).length).zip (patternColors rows) := by
+        simp only [iter_enumerate, List.range_eq_range']
+      rw [henum, hd1, bind_ok]
+      simp only [toOpt, Option.some.injEq]
+      obtain ⟨px, o, b⟩ := d'
+      simp only [List.take_zero, List.nil_append] at hd2
+      have hp : px = cellsOfPattern rows := by
+        apply Vector.toList_inj.mp
+        rw [hd2]
+        simp [cellsOfPattern]
+      simp only at hd3 hd4
+      rw [hp, hd3, hd4]
+      rfl
+
+
+example : (4096 : Nat) ≤ 4096 := Nat.le_refl _
+
+/-- which assertion fires first, with its message: the width (in BYTES of the first row), then the height. -/
+theorem from_pattern_width_msg (C : CT) (fuel : Nat) (r : List Char) (rest : List (List Char)) (h : ¬ rowLen r ≤ 64) :
+    MockDisplay_from_pattern C fuel (r :: rest) = .panic "Test pattern must not be wider than {} columns" () := by
+  unfold MockDisplay_from_pattern
+  simp only [bind_def, pure_def, MockDisplay_new_src_eq_model, bind_ok]
+  have hw : option_map_or (slice_first (r :: rest)) 0 (fun row => str_len row) = rowLen r := rfl
+  simp only [hw, rs_assert, usize_le, SIZE_src_eq_model, Mock.SIZE, h, decide_false, Bool.false_eq_true, ↓reduceIte, bind_panic]
+
+example : ¬ rowLen (List.replicate 65 'a') ≤ 64 := by decide
+
+theorem from_pattern_height_msg (C : CT) (fuel : Nat) (r : List Char) (rest : List (List Char)) (h : rowLen r ≤ 64)
+    (hh : ¬ (r :: rest).length ≤ 64) :
+    MockDisplay_from_pattern C fuel (r :: rest) = .panic "Test pattern must not be taller than {} rows" () := by
+  unfold MockDisplay_from_pattern
+  simp only [bind_def, pure_def, MockDisplay_new_src_eq_model, bind_ok]
+  have hw : option_map_or (slice_first (r :: rest)) 0 (fun row => str_len row) = rowLen r := rfl
+  simp only [hw, rs_assert, usize_le, SIZE_src_eq_model, Mock.SIZE, h, hh, slice_len, decide_true, decide_false,
+    Bool.false_eq_true, ↓reduceIte, bind_ok, bind_panic]
+
+example : rowLen [] ≤ 64 ∧ ¬ (([] : List Char) :: List.replicate 64 []).length ≤ 64 := by decide
 
 end EG.C20.GeneratedPattern
